@@ -7,7 +7,7 @@ PROPS = [json.loads(l)["id"] for l in open(os.path.join(V, "properties.jsonl"))]
 COMMON_NOTE = ("Trusted: Lean 4.33 kernel (+ axioms propext, Classical.choice, Quot.sound only; no native_decide/bv_decide/sorry, audited every run); "
                "the generator (clang-14 AST, K translator, probes) and the correspondence harness + differ; gcc/ASan/UBSan. ")
 
-CRED_TXT = 'Credential model lean/Munge/Model/Cred.lean (job_exec -> recv -> enc/dec_process_msg -> send) over abstract primitives: its decision kernels, stage orchestration, constants and error texts are regenerated from dec.c/enc.c/headers every run, its parsers/packers are hand-written mirrors tied byte-for-byte to the real job.c/m_msg.c/enc.c/dec.c/base64.c/zip.c/cred.c/replay.c/auth_recv.c by harness/h_cred.c (toy primitives with Lean twins; OpenSSL/zlib/bzlib build judged by oracle). '
+CRED_TXT = 'Credential model lean/Munge/Model/Cred.lean (job_exec -> recv -> enc/dec_process_msg -> send) over abstract primitives: its decision kernels, stage orchestration, constants and error texts are regenerated from dec.c/enc.c/headers every run, its credential parsers (unpackOuter / unpackInner) are PROVED equal to dec_unpack_outer / dec_unpack_inner as re-translated from dec.c every run by the K+cursor translator (Props/UnpackRef.lean), its other parsers/packers are hand-written mirrors tied byte-for-byte to the real job.c/m_msg.c/enc.c/dec.c/base64.c/zip.c/cred.c/replay.c/auth_recv.c by harness/h_cred.c (toy primitives with Lean twins; OpenSSL/zlib/bzlib build judged by oracle). '
 
 CLAIMS = {
  "C19": dict(
@@ -23,8 +23,8 @@ CLAIMS = {
    text="Proof. Theorems over the decision kernels dec_validate_time and enc_validate_msg and the orchestration of dec_process_msg, which are re-translated from dec.c/enc.c "
         "(clang typed AST -> Lean, C integer semantics explicit) on every run: acceptance only inside t0-skew<=t<=t0+min(ttl,max-ttl) over the integers (unconditionally, "
         "including 32-bit wrap, which only rejects more), exact window/EXPIRED/REWOUND verdicts where no wrap occurs, decode-side TTL cap, encode-side TTL resolution "
-        "(0->default, >max->max), soft errors keep the payload (no reset). Tie: translation validation of the real static kernels on a boundary lattice (~30k tuples) and "
-        "end-to-end encode/decode (retry 0/1/5) with the clock interposed, byte-exact against the Lean credential model; the real option processing for every --max-ttl.",
+        "(0->default, >max->max), soft errors keep the payload (no reset), an out-of-window presentation never reaches the replay stage (the clock decides every presentation). Tie: translation validation of the real static kernels on a boundary lattice (~30k tuples) and "
+        "end-to-end encode/decode (retry 0/1/5) with the clock interposed, byte-exact against the Lean credential model, incl. presentation histories with the replay cache kept (early, early, late, inside, late ...); the real option processing for every --max-ttl.",
    note=COMMON_NOTE + "The --max-ttl option reaches conf->max_ttl through the real conf.c (create_conf/parse_cmdline/process_conf in harness/h_conf.c): every value 1..3600 and malformed values are run, not proved; conf_fields_as_modelled ties the configuration fields dec.c/enc.c consult to the model's; time() is the only clock source and is interposed.",
    technique="Lean 4 theorems (omega over if-trees) on kernels translated from the C source each run + translation validation + end-to-end differential run",
    ref="5/C06"),
@@ -95,13 +95,15 @@ CLAIMS = {
    text="Proof. " + CRED_TXT + "Theorems (Props/C03.lean): no wire field of an encode/decode request sets a client or credential identity; the inner layer carries be32(uid)||be32(gid) of the PEER at the "
         "documented offset for every request; requests differing only in identity-looking fields get the same reply bytes; changing the peer changes exactly those 8 bytes; no peer => no credential; "
         "the identity reaching the authorisation kernel is the peer's and the middle stages preserve it. Tie per run: getsockopt(SO_PEERCRED) interposed over 200 (euid, egid) pairs incl. 0, >= 2^31, "
-        "0xFFFFFFFE, ordinary and crafted ENC_REQs (uid/gid-looking payloads, trailing fields), credentials read back by an independent python v3 reference (real build) and byte-exact vs model (toy).",
+        "0xFFFFFFFE, ordinary and crafted ENC_REQs (uid/gid-looking payloads, trailing fields, every class of the client-controlled retry byte; a refused encode must not carry a credential), credentials read back by an independent python v3 reference (real build) and byte-exact vs model (toy).",
    note=COMMON_NOTE + "SO_PEERCRED semantics (the kernel's attestation) are trusted; the real auth_recv.c runs with getsockopt interposed. The real-primitive stream also runs with the benchmark flag set, conf_fields_as_modelled pins the configuration fields enc.c consults, and the client-level stream checks what the real munge_decode hands to the application (identities up to 2^32-2).",
    technique="Lean 4 non-interference theorems over the credential model + differential correspondence with interposed peer credentials + independent format reference",
    ref="5/C03"),
  "C08": dict(
-   text="Proof (PARTIAL: bounds and state logic proved; memory safety / leaks / liveness of the C shown by sanitizers on explored inputs). " + CRED_TXT + "Theorems (Props/C08.lean, also C14.unpack_safe, "
-        "C19.decode_bound): for EVERY byte string the outer and inner credential parsers never read outside the buffer (the model tests a bound only where the C does and routes every access through "
+   text="Proof (PARTIAL: bounds and state logic proved; memory safety / leaks / liveness of the C shown by sanitizers on explored inputs). " + CRED_TXT + "Theorems: Props/C08Unpack.lean on the parsers AS TRANSLATED FROM dec.c each run (K+cursor translator: every read through the cursor is an event with offset and length) - "
+        "for every buffer content, every int length and every answer of the cipher/MAC tables all reads of dec_unpack_outer / dec_unpack_inner lie inside the buffer, the copies into iv/mac/salt/addr fit "
+        "(table bounds proved for the probed tables), the realm block is used inside its allocation, outer layer || MAC || inner layer tile the buffer, the payload pointer stays inside the inner layer; "
+        "Props/UnpackRef.lean: the model's parsers equal those kernels; Props/C08.lean (also C14.unpack_safe, C19.decode_bound): for EVERY byte string the outer and inner credential parsers never read outside the buffer (the model tests a bound only where the C does and routes every access through "
         "checked accessors that would yield `oob`), the payload handed to the reply lies inside it, a whole decode never reads out of bounds; the length gate applies to the header alone; a failed "
         "request never changes the replay state and a successful one adds exactly its key; every transaction ends in a well-formed reply or a closed connection. Tie per run: ~2.5k hostile requests "
         "through the real _job_exec under ASan/UBSan/LSan (all header fields x classes, all message types with typed bodies, every truncation of requests and of 5 credentials, bit flips, junk, "
@@ -114,7 +116,7 @@ CLAIMS = {
         "than expired/rewound/replayed sends exactly errorOnlyRsp(retry, code, text) - payload length 0, ids at the ANY sentinel, cipher/MAC/zip/TTL/times/address zero, no realm/address/payload bytes; "
         "a failed encode likewise; for an encrypted credential a padding-removal failure and a MAC mismatch produce THE SAME reply bytes (EMUNGE_CRED_INVALID, default text) and the MAC is still "
         "computed on the padding-failure path. Tie per run: ~850 ops - control decodes and hard failures with full reply bytes vs the error-only form, every byte of the last cipher block flipped, "
-        "previous block, MAC field, removed/added whole and partial blocks on AES/Blowfish/CAST credentials (three with a pure-padding last block) (toy byte-exact; OpenSSL by oracle: all replies of one credential identical).",
+        "previous block, MAC field, removed/added whole and partial blocks on AES/Blowfish/CAST credentials (three with a pure-padding last block) (toy byte-exact; OpenSSL by oracle: all replies of one credential identical); two restricted credentials of different encoders presented by unauthorised clients must get byte-identical replies naming neither encoder; every primitive call of 5 encodes / 5 decodes failing in turn.",
    note=COMMON_NOTE + "Timing indistinguishability is not a property of the model and is not claimed.",
    technique="Lean 4 theorems over the credential model and the translated orchestration + byte-exact differential correspondence on failure replies",
    ref="5/C09"),
@@ -122,7 +124,7 @@ CLAIMS = {
    text="Proof. " + CRED_TXT + "SpecV3 (Model/SpecV3.lean) is written from doc/credential_v3_format.txt alone (own byte order, own base64, own layout). Theorems (Props/C10.lean): for every request/"
         "configuration/environment/primitive table the credential the daemon model emits equals SpecV3.emit of the resolved fields; every SpecV3 credential of well-formed fields is accepted by the "
         "daemon model with the same field values; the streaming armor equals RFC 4648 on the concatenation. Tie per run: toy build byte-exact vs model; real build both ways against an independent "
-        "python reference (hashlib/hmac/zlib/bz2 + openssl enc) over every supported cipher x MAC x zip; the suite's frozen credential.",
+        "python reference (hashlib/hmac/zlib/bz2 + openssl enc) over every supported cipher x MAC x zip; the suite's frozen credential; credentials emitted while each primitive call fails in turn must still be structurally v3 and decode.",
    note=COMMON_NOTE + "The python reference is support, not proof; PrimLaws for the real primitives is validated, not proved.",
    technique="Lean 4 refinement theorems between the daemon model and an independent format specification + byte-exact correspondence + two-way cross-check with a python reference",
    ref="5/C10"),
